@@ -168,6 +168,10 @@ var _ = wire.RegisterInterface(
 )
 
 func DecodeMessage(bz []byte) (msgType byte, msg MempoolMessage, err error) {
+	if len(bz) == 0 {
+		err = fmt.Errorf("DecodeMessage: empty message")
+		return
+	}
 	msgType = bz[0]
 	n := new(int)
 	r := bytes.NewReader(bz)
